@@ -67,13 +67,13 @@ BUDGET = {
     "C04": (40, 2000, 1500),
     "C11": (240, 3000, 1500),
     "C10": (250, 30000, 1500),
-    "C06": (64, 20000, 1500),
-    "C07": (64, 20000, 1500),
-    "C08": (64, 20000, 1500),
-    "C09": (64, 20000, 1500),
-    "C15": (64, 20000, 1500),
-    "C17": (64, 20000, 1500),
-    "C20": (64, 20000, 1500),
+    "C06": (96, 20000, 1500),
+    "C07": (96, 20000, 1500),
+    "C08": (96, 20000, 1500),
+    "C09": (96, 20000, 1500),
+    "C15": (96, 20000, 1500),
+    "C17": (96, 20000, 1500),
+    "C20": (96, 20000, 1500),
     "C19": (3000, 1000000, 600),
 }
 
